@@ -400,6 +400,89 @@ def run(repo, rep, tier):
                             'handed out and used as if this manager owned it'
                             % (src, ' (the server-wide enumeration)'
                                if foreign else '', lst))
+    # ---- R7: subscription ends are matched with objects of their own kind --
+    # CIM_IndicationSubscription.Filter references an indication filter,
+    # .Handler a listener destination (DSP1054).  A lookup of one end in the
+    # collection of the other kind can never match (or matches the wrong
+    # thing): rediscovery then misses owned subscriptions.
+    r7 = rep.rule('C18.R7', 'Filter / Handler ends are compared with filter / '
+                  'destination objects respectively')
+    END_KIND = {'Filter': 'filter', 'Handler': 'destination'}
+
+    def kind_of(e, f, depth=0):
+        if depth > 4 or e is None:
+            return None
+        if isinstance(e, ast.Subscript) and const_str(e.slice) in END_KIND:
+            return END_KIND[const_str(e.slice)]
+        txt = norm(e, 300)
+        if '_owned_filters' in txt or 'FILTER_CLASSNAME' in txt:
+            return 'filter'
+        if '_owned_destinations' in txt or 'DESTINATION_CLASSNAME' in txt:
+            return 'destination'
+        if isinstance(e, (ast.ListComp, ast.GeneratorExp)):
+            k = kind_of(e.generators[0].iter, f, depth + 1)
+            return k
+        if isinstance(e, ast.Attribute) and e.attr == 'path':
+            return kind_of(e.value, f, depth + 1)
+        if isinstance(e, ast.Name):
+            kinds = set()
+            for n in walk_no_nested(f.node):
+                if isinstance(n, ast.Assign) and any(
+                        isinstance(t, ast.Name) and t.id == e.id
+                        for t in n.targets):
+                    kinds.add(kind_of(n.value, f, depth + 1))
+                elif isinstance(n, (ast.For, ast.comprehension)) and \
+                        isinstance(n.target, ast.Name) and \
+                        n.target.id == e.id:
+                    kinds.add(kind_of(n.iter, f, depth + 1))
+            kinds.discard(None)
+            if len(kinds) == 1:
+                return kinds.pop()
+            if not kinds and e.id in f.params:
+                low = e.id.lower()
+                if 'filter' in low and 'dest' not in low:
+                    return 'filter'
+                if 'dest' in low and 'filter' not in low:
+                    return 'destination'
+        return None
+
+    for f in mgr.methods.values():
+        for n in walk_no_nested(f.node):
+            pairs = []
+            if isinstance(n, ast.Compare) and len(n.ops) == 1 and \
+                    isinstance(n.ops[0], (ast.In, ast.NotIn, ast.Eq,
+                                          ast.NotEq)):
+                pairs.append((n.left, n.comparators[0], n))
+            elif isinstance(n, ast.Assign) and len(n.targets) == 1 and \
+                    isinstance(n.targets[0], ast.Subscript) and \
+                    const_str(n.targets[0].slice) in END_KIND:
+                pairs.append((n.targets[0], n.value, n))
+            for a, b, node in pairs:
+                ends = [x for x in (a, b) if isinstance(x, ast.Subscript) and
+                        const_str(x.slice) in END_KIND]
+                if not ends:
+                    continue
+                ka, kb = kind_of(a, f), kind_of(b, f)
+                if ka is None or kb is None:
+                    continue
+                r7.sites += 1
+                r7.functions.add(f.fq)
+                ok = ka == kb
+                r7.ob(ok, '%s|%s' % (f.qualname, norm(node, 60)),
+                      {'function': f.qualname, 'expression': norm(node, 80),
+                       'kinds': [ka, kb]})
+                if not ok:
+                    rep.finding(r7, f.qualname, norm(node, 90),
+                                'end-kind-mismatch', SM, node.lineno,
+                                'a %s end is compared with / assigned from '
+                                '%s objects: the test can never hold (an '
+                                'owned subscription on a permanent filter '
+                                'and an owned destination is not '
+                                'rediscovered, so it is never removed)'
+                                % (ka, kb))
+    if r7.sites < 3:
+        raise AnalysisError('subscription end lookups not found (%d)'
+                            % r7.sites)
     # ---- R3 ---------------------------------------------------------------
     for rname, pvar in (('remove_destinations', 'dest_path'),
                         ('remove_filter', 'filter_path')):
